@@ -75,6 +75,7 @@ class Loop:
     iter: list = field(default_factory=list)        # two-state iteration contract: at_iter(e) = value at iteration start
     exit: list = field(default_factory=list)        # clauses that must hold when the loop condition turns false
     range_is: Optional[tuple] = None                # (lo, hi) expressions the evaluated range() bounds must equal
+    range_props: str = "C14"                        # property tags of that refinement assertion
 
 
 @dataclass
